@@ -36,6 +36,7 @@ ASSUMPTIONS = [
 ]
 
 ALLOWED = (FormatError, ValueError)
+CHUNK = 24
 REPL = "0FG:#>=, \n"
 BYTE_CLASSES = ["bit0", "bit1", "bit2", "bit3", "bit4", "bit5", "bit6", "bit7", "zero", "ff", "inc"]
 DECSETS = ["all", "none", "public", "private", "wrong"]
@@ -154,7 +155,8 @@ def cases(ctx):
         yield ("short", ep, "")
         for a in SHORT_ALPHA[ep]:
             for b in SHORT_ALPHA[ep]:
-                yield ("short", ep, a + b)
+                for c in SHORT_ALPHA[ep]:
+                    yield ("short", ep, a + b + c)
     for hi in range(257):
         yield ("filter2", hi)
     ents = [0x0000, 0x009B, 0x409B, 0x809B, 0xC0AD, 0xFFFF, 0x3FFF]
@@ -266,7 +268,8 @@ def run_case(ctx, case):
         alpha = SHORT_ALPHA[ep]
         fx = art[ep][0] if ep in ("bf3", "bec2") else None
         n = 0
-        texts = ([""] + list(alpha)) if first == "" else (first + "".join(s) for k in range(0, 4) for s in product(alpha, repeat=k))
+        texts = ([""] + list(alpha) + [a + b for a in alpha for b in alpha]) if first == "" else \
+            (first + "".join(s) for k in range(0, 3) for s in product(alpha, repeat=k))
         for t in texts:
             n += 1
             o2 = Outcome("?")
